@@ -567,7 +567,8 @@ fn passes() -> Vec<Pass> {
         // everything, shallow: every op is exercised in every context of length <= 2 (3)
         Pass { name: "full", ops: ALL_OPS.to_vec(), depth_quick: 3, depth_thorough: 4 },
         // the known triggers (statement-local counter, insert_batch, explicit ids the counter never sees)
-        // removed so that the remainder reaches full depth
+        // removed so that the remainder reaches full depth (the explicit-ahead two-row statement is not a
+        // known trigger; it is left to the passes `full` and `core` only to keep this alphabet at 11 ops)
         Pass { name: "no-known-triggers", ops: without(&[MultiNextOmit, MultiOmitNext1Omit, MultiAheadOmit, BatchNext, BatchNull, UpdMaxToNext, InsNull, TxnCommitIns, InsExplicitLarge]), depth_quick: 4, depth_thorough: 5 },
         // no multi-row statement at all: the deepest pass
         Pass { name: "core-small", ops: vec![InsOmit, InsExplicitNext5, DelMax, Truncate, TxnRollbackIns, Reopen], depth_quick: 5, depth_thorough: 7 },
